@@ -70,14 +70,18 @@ var c16FailKinds = []string{c16Err, c16Missing, c16GarbageFile, c16Invalid, c16I
 var c16OKKinds = []string{c16OK, c16OK, c16OK, c16OKFile, c16OKHTTP, c16OKEmpty}
 var c16CLIFail = []string{c16Missing, c16GarbageFile, c16InvalidFile}
 
-func c16Succeeds(kind string) bool { return strings.HasPrefix(kind, "ok") || c16RealSucceeds(kind) }
-func c16IsHTTP(kind string) bool   { return kind == c16OKHTTP || strings.HasPrefix(kind, "http-") }
+func c16Succeeds(kind string) bool {
+	return strings.HasPrefix(kind, "ok") || c16RealSucceeds(kind) || kind == c16PerfOK
+}
+func c16IsHTTP(kind string) bool { return kind == c16OKHTTP || strings.HasPrefix(kind, "http-") }
 
 type c16Src struct {
 	Kind       string `json:"kind"`
 	Seed       uint64 `json:"seed"`
 	MapFile    string `json:"map_file,omitempty"`     // binary-location stream: file name of the profile's mapping
 	MapBuildID string `json:"map_build_id,omitempty"` // … and its build id ("" = none)
+	Unit0      string `json:"unit0,omitempty"`        // units stream: unit of sample type 0 (cpu) …
+	Unit1      string `json:"unit1,omitempty"`        // … and of sample type 1 (space)
 }
 
 type c16Case struct {
@@ -89,6 +93,8 @@ type c16Case struct {
 	AltKinds  []string      `json:"alt_kinds,omitempty"`       // other way of failing for failing sources ("" = same); run under Schedules[0]
 	Text      bool          `json:"text,omitempty"`            // also check -traces and -top
 	CLI       bool          `json:"cli,omitempty"`             // run through the pprof binary (file kinds only)
+	Perf      bool          `json:"perf_conversion,omitempty"` // perf.data sources converted by the stand-in perf_to_profile (c16_perf.go)
+	Units     bool          `json:"units,omitempty"`           // sources report their sample types in different compatible units (c16_units.go)
 	Bin       bool          `json:"binary_location,omitempty"` // mappings are located under a generated $PPROF_BINARY_PATH tree (c16_bin.go)
 	Tree      []c16BinEntry `json:"tree,omitempty"`
 	Real      bool          `json:"real_transport,omitempty"` // URL sources go through the production internal/transport to local servers (c16_tls.go)
@@ -106,6 +112,9 @@ func c16Token(group, id int) string {
 }
 
 func c16Addr(dir string, group, id int, kind string) string {
+	if c16IsPerf(kind) {
+		return c16PerfAddr(dir, c16Token(group, id))
+	}
 	if c16IsReal(kind) && c16Srv != nil {
 		return c16Srv.addr(kind, c16Token(group, id))
 	}
@@ -184,6 +193,14 @@ func c16ProfileOf(group, id int, s c16Src) *profile.Profile {
 	if s.MapFile != "" {
 		p.Mapping[0].File, p.Mapping[0].BuildID = s.MapFile, s.MapBuildID
 	}
+	if s.Unit0 != "" {
+		p.SampleType = []*profile.ValueType{{Type: "cpu", Unit: s.Unit0}, {Type: "space", Unit: s.Unit1}}
+		for _, sm := range p.Sample {
+			for i := range sm.Value {
+				sm.Value[i] = 1 + (sm.Value[i]-1)%(1<<18) // keeps value × 1e9 below 2^53
+			}
+		}
+	}
 	return p
 }
 
@@ -250,12 +267,26 @@ type c16Expect struct {
 	OkSrc    []int
 	OkBase   []int
 	NFail    [2]int
-	Time     int64 // earliest collection time among the successful sources and bases
+	Time     int64     // earliest collection time among the successful sources and bases
+	Finest   [2]string // units stream: finest unit per sample type among the successful sources and bases
 }
 
 func c16Expected(cs *c16Case, kinds []string) *c16Expect {
 	e := &c16Expect{W: c16W{}}
 	n := len(cs.Sources)
+	e.Finest = c16Finest(cs, kinds)
+	scaled := func(g, id int, s c16Src) *profile.Profile {
+		p := c16ProfileOf(g, id, s)
+		ratio := c16UnitRatio(s, e.Finest)
+		for _, sm := range p.Sample {
+			for i := range sm.Value {
+				if i < 2 {
+					sm.Value[i] *= ratio[i]
+				}
+			}
+		}
+		return p
+	}
 	for i, s := range cs.Sources {
 		s.Kind = kinds[i]
 		if !c16Succeeds(s.Kind) {
@@ -266,7 +297,7 @@ func c16Expected(cs *c16Case, kinds []string) *c16Expect {
 		if t := c16Time(0, i); e.Time == 0 || t < e.Time {
 			e.Time = t
 		}
-		e.W.add(c16ProfileOf(0, i, s), 1, "")
+		e.W.add(scaled(0, i, s), 1, "")
 		e.Comments = append(e.Comments, c16Token(0, i))
 		if e.DocURL == "" {
 			e.DocURL = "http://doc.invalid/" + c16Token(0, i)
@@ -286,7 +317,7 @@ func c16Expected(cs *c16Case, kinds []string) *c16Expect {
 		if cs.DiffBase {
 			extra = "pprof::base=true"
 		}
-		e.W.add(c16ProfileOf(1, j, s), -1, extra)
+		e.W.add(scaled(1, j, s), -1, extra)
 		e.Comments = append(e.Comments, c16Token(1, j))
 	}
 	e.W.dropZero()
@@ -370,6 +401,10 @@ func (r *c16Run) Fetch(src string, duration, timeout time.Duration) (*profile.Pr
 	r.begin(s)
 	if c16IsHTTP(s.src.Kind) {
 		return nil, "", nil // completion is recorded by the transport
+	}
+	if c16IsPerf(s.src.Kind) {
+		r.finish(s)
+		return nil, "", nil // pprof converts the file itself; the stand-in tool does the waiting
 	}
 	if c16IsReal(s.src.Kind) {
 		if r.gate == nil { // default wiring, no wrapper: order by delay only
@@ -561,6 +596,9 @@ func c16ExecOrd(root string, cs *c16Case, kinds []string, delays, order []int, f
 		}
 	}
 	c16WriteFiles(dir, cs, kinds)
+	if cs.Perf {
+		c16WritePerf(dir, cs, kinds, delays, len(delays) > 0 && delays[0]%2 == 0)
+	}
 	n := len(cs.Sources)
 	run := &c16Run{byTok: map[string]*c16Slot{}}
 	obs := &c16Obs{ErrCount: map[string]int{}}
@@ -592,6 +630,9 @@ func c16ExecOrd(root string, cs *c16Case, kinds []string, delays, order []int, f
 		} else {
 			bases = append(bases, c16Addr(dir, g, id, s.Kind))
 		}
+	}
+	if cs.Units {
+		sampleIndex = map[string]string{"allocs": "cpu", "objs": "space"}[sampleIndex]
 	}
 	fl := &c16Flags{bools: map[string]bool{format: true, "trim": false},
 		strs:  map[string]string{"output": "c16out", "sample_index": sampleIndex, "symbolize": "none"},
@@ -804,6 +845,12 @@ func (k *c16Checker) check(cs *c16Case, label string, kinds []string, exp *c16Ex
 			ok = viol(sig, fmt.Sprintf("merged comments (one per source, in merge order) are %s, want %s", trunc16(strings.Join(p.Comments, " ")), trunc16(strings.Join(exp.Comments, " "))))
 		} else if p.DocURL != exp.DocURL {
 			ok = viol("C16/order/first-source-header", fmt.Sprintf("DocURL %q, want that of the first successful source %q", p.DocURL, exp.DocURL))
+		}
+		if cs.Units && exp.Finest[0] != "" && len(p.SampleType) == 2 {
+			if p.SampleType[0].Unit != exp.Finest[0] || p.SampleType[1].Unit != exp.Finest[1] {
+				ok = viol("C16/units/not-the-finest-unit", fmt.Sprintf("merged sample types are in %s/%s, the finest units among the successful sources are %s/%s",
+					p.SampleType[0].Unit, p.SampleType[1].Unit, exp.Finest[0], exp.Finest[1]))
+			}
 		}
 		if cs.Bin {
 			got, want := c16BinObserved(p, obs.TreeDir), c16BinExpected(cs, kinds)
@@ -1094,6 +1141,74 @@ func (k *c16Checker) model(cs *c16Case, label string, kinds []string, obs *c16Ob
 	}
 }
 
+// modelUnits: the expected total of the stack common;main in the finest unit must be the model's
+// converted sum (Fetch.unitSum) of the successful sources' values.
+func (k *c16Checker) modelUnits(cs *c16Case, kinds []string, exp *c16Expect) {
+	n := len(cs.Sources)
+	for col := 0; col < 2; col++ {
+		var toks []string
+		cnt := 0
+		for i, s := range cs.all() {
+			if !c16Succeeds(kinds[i]) || i >= n { // sources only: bases are subtracted by fetchProfiles
+				continue
+			}
+			g, id := 0, i
+			var v int64
+			for _, sm := range c16ProfileOf(g, id, s).Sample {
+				if c16Key(sm, "") == "common;main|" {
+					v += sm.Value[col]
+				}
+			}
+			u := s.Unit0
+			if col == 1 {
+				u = s.Unit1
+			}
+			toks = append(toks, fmt.Sprintf("%d %d", c16UnitFactor[u], v))
+			cnt++
+		}
+		if cnt == 0 {
+			return
+		}
+		// the harness' expectation, re-based from the finest unit of sources+bases to that of the sources
+		fin := exp.Finest[col]
+		var srcFin int64
+		for i, s := range cs.Sources {
+			if c16Succeeds(kinds[i]) {
+				u := s.Unit0
+				if col == 1 {
+					u = s.Unit1
+				}
+				if srcFin == 0 || c16UnitFactor[u] < srcFin {
+					srcFin = c16UnitFactor[u]
+				}
+			}
+		}
+		var want int64
+		for i, s := range cs.Sources {
+			if !c16Succeeds(kinds[i]) {
+				continue
+			}
+			u := s.Unit0
+			if col == 1 {
+				u = s.Unit1
+			}
+			for _, sm := range c16ProfileOf(0, i, s).Sample {
+				if c16Key(sm, "") == "common;main|" {
+					want += sm.Value[col] * (c16UnitFactor[u] / srcFin)
+				}
+			}
+		}
+		_ = fin
+		rep := k.c.Drv.Ask(fmt.Sprintf("fetch.unitsum %d %s", cnt, strings.Join(toks, " ")))
+		k.c.Res.ModelCompared++
+		if rep != fmt.Sprintf("%d %d", srcFin, want) {
+			k.c.Disagree("C16/model/unit-sum", fmt.Sprintf("[%s] sample type %d: model's converted sum %q, harness expectation \"%d %d\"", cs.Name, col, rep, srcFin, want),
+				"Fetch.unitSum (Model/Fetch.lean) ↔ harness c16Expected", cs)
+			return
+		}
+	}
+}
+
 // modelLocate: the harness' expectation of which tree entry a mapping resolves to must be the model's.
 func (k *c16Checker) modelLocate(cs *c16Case) {
 	code := map[string]int{"": 0}
@@ -1282,6 +1397,13 @@ func (k *c16Checker) runCase(cs *c16Case) {
 	nf := exp.NFail[0] + exp.NFail[1]
 	nontrivial := n+m >= 2 && nf >= 1 && len(exp.OkSrc)+len(exp.OkBase) >= 1 && nonIndexOrder && len(orders) >= 2
 	canon := fmt.Sprintf("%v|%v|%v|%v|%v", kinds, cs.DiffBase, cs.Schedules, cs.Orders, cs.UseCA)
+	if cs.Perf {
+		c.Res.Hit("perf-conversion-cases")
+	}
+	if cs.Units {
+		c.Res.Hit("units-cases")
+		k.modelUnits(cs, kinds, exp)
+	}
 	if cs.Bin {
 		c.Res.Hit("binary-location-cases")
 		k.modelLocate(cs)
@@ -1569,7 +1691,7 @@ func runC16(c *Ctx) {
 }
 
 func c16Worker(c *Ctx) {
-	c.Res.Rule = "cases: 1…300 sources (all sizes 1-8 with every outcome vector and EVERY completion order for n=3, sizes around the 127/128/129 and 255/256/257 chunk boundaries, random sizes) × 0…130 -base/-diff_base sources, each source independently a valid profile (from the Fetcher plug-in, a file, or an HTTP body), or failing (Fetcher error, missing file, garbage file/body, invalid profile, HTTP 500, transport error); a stream of 2…8 sources (+ bases) mixing https:// (untrusted server: must fail; server trusted through -tls_ca: must succeed), https+insecure://, http:// and file/plug-in sources fetched through the PRODUCTION internal/transport against servers on 127.0.0.1, released one after the other in PRNG permutations, all-insecure-first and all-strict-first orders, plus one delay-scheduled run through the driver's default transport wiring; a stream of 2…7 sources (+ bases) whose mappings (same file name under several build ids, some without build id) are located under a generated $PPROF_BINARY_PATH tree (<buildid>/<name>, plain <name>, stale and missing entries) through a mock ObjTool, with failing neighbours, under ≥3 delay schedules; each case runs the real driver.PProf under ≥3 PRNG-derived delay schedules (random, reverse, failures-first) and with the failing sources failing differently. non-trivial = ≥2 sources, at least one success and one failure, an observed completion order that is not the command-line order and ≥2 distinct observed completion orders."
+	c.Res.Rule = "cases: 1…300 sources (all sizes 1-8 with every outcome vector and EVERY completion order for n=3, sizes around the 127/128/129 and 255/256/257 chunk boundaries, random sizes) × 0…130 -base/-diff_base sources, each source independently a valid profile (from the Fetcher plug-in, a file, or an HTTP body), or failing (Fetcher error, missing file, garbage file/body, invalid profile, HTTP 500, transport error); a stream of 2…8 sources (+ bases) mixing https:// (untrusted server: must fail; server trusted through -tls_ca: must succeed), https+insecure://, http:// and file/plug-in sources fetched through the PRODUCTION internal/transport against servers on 127.0.0.1, released one after the other in PRNG permutations, all-insecure-first and all-strict-first orders, plus one delay-scheduled run through the driver's default transport wiring; a stream of 2…7 sources (+ bases) whose mappings (same file name under several build ids, some without build id) are located under a generated $PPROF_BINARY_PATH tree (<buildid>/<name>, plain <name>, stale and missing entries) through a mock ObjTool, with failing neighbours, under ≥3 delay schedules; a stream of perf.data sources with EQUAL base names in different directories, converted concurrently by a stand-in perf_to_profile (this binary re-executed) whose writes and exits are staggered so that the conversions overlap; a stream of sources reporting the same sample types in different compatible units (ns/us/ms/s, bytes/kB/MB) in every position with failing neighbours (merged values = sum of the per-source values converted to the finest unit among the successful ones); each case runs the real driver.PProf under ≥3 PRNG-derived delay schedules (random, reverse, failures-first) and with the failing sources failing differently. non-trivial = ≥2 sources, at least one success and one failure, an observed completion order that is not the command-line order and ≥2 distinct observed completion orders."
 	root, err := os.MkdirTemp("", "pvc16-")
 	if err != nil {
 		c.Res.HarnessError = "cannot create scratch directory: " + err.Error()
@@ -1664,6 +1786,18 @@ func c16Worker(c *Ctx) {
 	// (1c) mappings located under a $PPROF_BINARY_PATH tree: same file name under several build ids
 	for i := 0; i < 9*c.Scale; i++ {
 		k.runCase(c16GenBin(r.Fork(), i))
+	}
+	// (1d) perf.data sources with equal base names, converted concurrently by the stand-in tool
+	if err := c16PerfSetup(root); err != nil {
+		c.Res.Notes = append(c.Res.Notes, "perf.data stream skipped: "+err.Error())
+	} else {
+		for i := 0; i < 5*c.Scale; i++ {
+			k.runCase(c16GenPerf(r.Fork(), i))
+		}
+	}
+	// (1e) the same sample types in different compatible units
+	for i := 0; i < 10*c.Scale; i++ {
+		k.runCase(c16GenUnits(r.Fork(), i))
 	}
 	// (2) sizes 1…8, with and without bases
 	for n := 1; n <= 8; n++ {
